@@ -276,12 +276,16 @@ T_CALLS = {n: _treq(n) for n in _TQ}
 gen_threads, ev_threads = _thr.make(T_CALLS, ['api/app.py'], 'api:threads', triple=('inv_dd', 'inv_dms_dms', 'dir_dms_dd'))
 
 
+from gpmc import interp as _ip
+
+
 SUBCHECKS = [
     Sub('spellings', gen_spell, ev_spell_single, chunk=1, floor=100, guard=False),
     Sub('threads', gen_threads, ev_threads, chunk=1, floor=10, poison=False, fresh=True, timeout=3600),
     Sub('vincdir', gen_dir, ev_dir, chunk=1, floor=500, guard=True, envs=3),
     Sub('vincinv', gen_inv, ev_inv, chunk=4, floor=500, guard=True, envs=3),
     Sub('index', gen_index, ev_index, chunk=1, floor=1, parallel=False, guard=True),
+    Sub('interpreter', *_ip.make('C20', 'api'), chunk=1, floor=5, poison=False),
 ]
 
 
